@@ -605,7 +605,8 @@ def _unpack_with_annotated_serialization_strategy(
     )
     overridden_fn = f"__{spec.field_ctx.name}_deserialize_{random_hex()}"
     setattr(spec.attrs, overridden_fn, strategy.deserialize)
-    new_spec = spec.copy(type=value_type)
+    # the strategy may have been found by the Annotated type as its key
+    new_spec = spec.copy(type=value_type, annotated_type=None)
     field_metadata = new_spec.field_ctx.metadata
     if field_metadata.get("serialization_strategy") is strategy:
         new_spec.field_ctx.metadata = {
